@@ -101,58 +101,66 @@ Proof.
 Qed.
 
 (* model values of the pieces over the reals *)
-Lemma di_tmp2_masked thr x dt : Rabs (x * dt) < thr -> di_tmp2 RO thr x dt = (0, dt).
-Proof. intros H. unfold di_tmp2. rewrite ltabs_true by exact H. apply cite_true. Qed.
-Lemma di_tmp2_unmasked thr x dt : thr <= Rabs (x * dt) ->
-  di_tmp2 RO thr x dt = (cos (x * dt) / x - 1 / x, sin (x * dt) / x).
-Proof. intros H. unfold di_tmp2. rewrite ltabs_false by exact H. apply cite_false. Qed.
+Lemma nonzero_true x : x <> 0 -> nonzero RO x = true.
+Proof. intros H. unfold nonzero; simpl. apply Rgtb_true. apply Rabs_pos_lt; auto. Qed.
+Lemma nonzero_false : nonzero RO 0 = false.
+Proof. unfold nonzero; simpl. apply Rgtb_false. rewrite Rabs_R0. lra. Qed.
 (* an unmasked quantity is non-zero *)
 Lemma unmasked_nz thr x dt : 0 < thr -> thr <= Rabs (x * dt) -> x <> 0.
 Proof. intros H0 H ->. rewrite Rmult_0_l, Rabs_R0 in H. lra. Qed.
-(* tmp2 = i * int_0^dt e^{i x t} dt when the masked value is only used at x = 0 *)
-Lemma di_tmp2_val thr x dt : 0 < thr -> (Rabs (x * dt) < thr -> x = 0) ->
-  di_tmp2 RO thr x dt = (- Is x dt, Ic x dt).
+
+(* tmp2 = i * int_0^dt e^{i x t} dt for EVERY x, dt: the half-angle form 2i sin(x dt/2) e^{i x dt/2}/x is the
+   same number as (e^{i x dt} - 1)/x, and the exact-zero test only returns the value of the integral at x dt = 0 *)
+Lemma di_tmp2_val x dt : di_tmp2 RO x dt = (- Is x dt, Ic x dt).
 Proof.
-  intros H0 Hm. destruct (Rlt_le_dec (Rabs (x * dt)) thr) as [H|H].
-  - rewrite di_tmp2_masked by auto. rewrite (Hm H), Ic_0, Is_0. apply c_eq; simpl; ring.
-  - assert (Hx : x <> 0) by exact (unmasked_nz thr x dt H0 H).
-    rewrite di_tmp2_unmasked by auto. rewrite Ic_nz, Is_nz by auto. apply c_eq; simpl; field; auto.
+  unfold di_tmp2. change (omul RO x dt) with (x * dt).
+  destruct (Req_dec (x * dt) 0) as [E|E].
+  - rewrite E, nonzero_false, cite_false.
+    destruct (Req_dec x 0) as [->|Hx].
+    + rewrite Ic_0, Is_0. apply c_eq; simpl; ring.
+    + rewrite Ic_nz, Is_nz by auto. rewrite E, sin_0, cos_0.
+      assert (dt = 0) by (apply Rmult_integral in E; destruct E; [contradiction|auto]). subst.
+      apply c_eq; simpl; field; auto.
+  - assert (Hx : x <> 0) by (intros ->; apply E; ring).
+    rewrite nonzero_true by auto. rewrite cite_true. rewrite Ic_nz, Is_nz by auto.
+    change (odiv RO (x * dt) (o2 RO)) with (x * dt / (1 + 1)). set (h := x * dt / (1 + 1)).
+    replace (x * dt) with (2 * h) by (unfold h; field).
+    rewrite sin_2a, cos_2a_sin. unfold o2; simpl. apply c_eq; simpl; field; auto.
 Qed.
 
-Theorem di_tmp1_exact thr x dt : 0 < thr -> (Rabs (x * dt) < thr -> x = 0) ->
-  is_RInt (dint_re x 0) 0 dt (fst (di_tmp1 RO thr x dt)) /\
-  is_RInt (dint_im x 0) 0 dt (snd (di_tmp1 RO thr x dt)).
+(* Horner evaluation of the Taylor polynomial at 0 *)
+Lemma horner_0 : horner RO (di_series_coeffs RO) 0 = (1 / 2, 0).
+Proof. unfold horner, di_series_coeffs, oZ; simpl. unfold Rdya; simpl. apply c_eq; simpl; field. Qed.
+
+Theorem di_tmp1_exact thr_s x dt : 0 < thr_s -> (Rabs (x * dt) < thr_s -> x = 0) ->
+  is_RInt (dint_re x 0) 0 dt (fst (di_tmp1 RO thr_s x dt)) /\
+  is_RInt (dint_im x 0) 0 dt (snd (di_tmp1 RO thr_s x dt)).
 Proof.
   intros H0 Hm. unfold di_tmp1. change (omul RO x dt) with (x * dt).
-  destruct (Rlt_le_dec (Rabs (x * dt)) thr) as [H|H].
-  - rewrite ltabs_true by exact H. rewrite cite_true. simpl. rewrite (Hm H). split.
+  destruct (Rlt_le_dec (Rabs (x * dt)) thr_s) as [H|H].
+  - rewrite ltabs_true by exact H. rewrite cite_true. rewrite (Hm H). rewrite Rmult_0_l, horner_0. simpl. split.
     + apply (is_RInt_ext (fun t => t)). intros t _. Req. rewrite dint_re_z, Rmult_0_l, cos_0. ring.
-      evar_last. apply int_t. unfold o2; simpl. field.
+      evar_last. apply int_t. field.
     + apply (is_RInt_ext (fun _ => 0)). intros t _. Req. rewrite dint_im_z, Rmult_0_l, sin_0. ring.
       evar_last. apply @is_RInt_const. unfold scal; simpl; unfold mult; simpl. ring.
-  - assert (Hx : x <> 0) by exact (unmasked_nz thr x dt H0 H).
-    rewrite ltabs_false by exact H. rewrite cite_false. rewrite di_tmp2_unmasked by auto. simpl. split.
+  - assert (Hx : x <> 0) by exact (unmasked_nz thr_s x dt H0 H).
+    rewrite ltabs_false by exact H. rewrite cite_false. rewrite di_tmp2_val.
+    rewrite Ic_nz, Is_nz by auto. split.
     + apply (is_RInt_ext (fun t => t * cos (x * t))). intros t _. Req. rewrite dint_re_z. ring.
-      apply int_tcos; auto.
+      evar_last. apply int_tcos; auto. unfold cdivr, csub, cmul, cexp; simpl. field; auto.
     + apply (is_RInt_ext (fun t => t * sin (x * t))). intros t _. Req. rewrite dint_im_z. ring.
-      apply int_tsin; auto.
+      evar_last. apply int_tsin; auto. unfold cdivr, csub, cmul, cexp; simpl. field; auto.
 Qed.
 
-Theorem di_nz_exact thr thr_y x b dt : 0 < thr -> 0 < thr_y -> b <> 0 ->
-  (Rabs (x * dt) < thr -> x = 0) -> (Rabs ((x + b) * dt) < thr_y -> x + b = 0) ->
-  is_RInt (dint_re x b) 0 dt (fst (di_nz RO thr thr_y x b dt)) /\
-  is_RInt (dint_im x b) 0 dt (snd (di_nz RO thr thr_y x b dt)).
+(* the case Omega_pq != 0 is exact for every x: no small-denominator window is left *)
+Theorem di_nz_exact x b dt : b <> 0 ->
+  is_RInt (dint_re x b) 0 dt (fst (di_nz RO x b dt)) /\
+  is_RInt (dint_im x b) 0 dt (snd (di_nz RO x b dt)).
 Proof.
-  intros H0 H0y Hb Hmx Hmy.
-  assert (E : di_nz RO thr thr_y x b dt = ((Is (x + b) dt - Is x dt) / b, (Ic x dt - Ic (x + b) dt) / b)).
-  { unfold di_nz. rewrite (di_tmp2_val thr x dt H0 Hmx).
-    change (oadd RO x b) with (x + b). set (y := x + b) in *. change (omul RO y dt) with (y * dt).
-    destruct (Rlt_le_dec (Rabs (y * dt)) thr_y) as [H|H].
-    - rewrite ltabs_true by exact H. rewrite cite_true. rewrite (Hmy H), Ic_0, Is_0.
-      unfold cdivr, cadd; apply c_eq; simpl; field; auto.
-    - assert (Hy : y <> 0) by exact (unmasked_nz thr_y y dt H0y H).
-      rewrite ltabs_false by exact H. rewrite cite_false. rewrite (Ic_nz y), (Is_nz y) by auto.
-      unfold cdivr, cadd; apply c_eq; simpl; field; repeat split; auto. }
+  intros Hb.
+  assert (E : di_nz RO x b dt = ((Is (x + b) dt - Is x dt) / b, (Ic x dt - Ic (x + b) dt) / b)).
+  { unfold di_nz. rewrite !di_tmp2_val. change (oadd RO x b) with (x + b).
+    unfold cdivr, cadd, cneg; apply c_eq; simpl; field; auto. }
   rewrite E. simpl. split.
   - apply (is_RInt_ext (fun t => scal (/ b) (minus (sin ((x + b) * t)) (sin (x * t))))).
     intros t _. Req. rewrite dint_re_nz by auto. unfold scal, minus, plus, opp; simpl; unfold mult; simpl. field; auto.
@@ -167,55 +175,58 @@ Qed.
 Definition di_b (ev : list R) (p q : nat) : R := vg RO ev p - vg RO ev q.
 Definition di_x (w : R) (ev : list R) (m n : nat) : R := w + (vg RO ev m - vg RO ev n).
 
-(* Every entry of the derivative integral is the parameter integral, provided a masked quantity
-   is only masked when it is exactly zero (then the masked value is the integral at the
-   degenerate parameter: the limits i*dt, dt^2/2, -i*dt are consistent).                       *)
-Theorem deriv_integral_cases thr_dE thr_x thr_y w ev dt p q m n :
-  0 < thr_dE -> 0 < thr_x -> 0 < thr_y ->
+(* Every entry of the derivative integral is the parameter integral.  The case Omega_pq != 0 is exact without
+   any condition; Omega_pq is treated as 0 when |Omega_pq dt| < thr_dE (exact if it is 0), and in the case
+   Omega_pq == 0 the Taylor polynomial is used for |x dt| < thr_s (exact at x = 0: the limit dt^2/2). *)
+Theorem deriv_integral_cases thr_dE thr_s w ev dt p q m n :
+  0 < thr_dE -> 0 < thr_s ->
   (Rabs (di_b ev p q * dt) < thr_dE -> di_b ev p q = 0) ->
-  (Rabs (di_x w ev m n * dt) < thr_x -> di_x w ev m n = 0) ->
-  (Rabs ((di_x w ev m n + di_b ev p q) * dt) < thr_y -> di_x w ev m n + di_b ev p q = 0) ->
+  (Rabs (di_b ev p q * dt) < thr_dE -> Rabs (di_x w ev m n * dt) < thr_s -> di_x w ev m n = 0) ->
   is_RInt (dint_re (di_x w ev m n) (di_b ev p q)) 0 dt
-          (fst (deriv_integral_entry RO (thr_dE, thr_x, thr_y) w ev dt p q m n)) /\
+          (fst (deriv_integral_entry RO (thr_dE, thr_s) w ev dt p q m n)) /\
   is_RInt (dint_im (di_x w ev m n) (di_b ev p q)) 0 dt
-          (snd (deriv_integral_entry RO (thr_dE, thr_x, thr_y) w ev dt p q m n)).
+          (snd (deriv_integral_entry RO (thr_dE, thr_s) w ev dt p q m n)).
 Proof.
-  intros H1 H2 H3 Hb Hx Hy. unfold deriv_integral_entry.
+  intros H1 H2 Hb Hx. unfold deriv_integral_entry. cbn [fst snd].
   change (osub RO (vg RO ev p) (vg RO ev q)) with (di_b ev p q).
   change (oadd RO w (osub RO (vg RO ev m) (vg RO ev n))) with (di_x w ev m n).
   change (omul RO (di_b ev p q) dt) with (di_b ev p q * dt).
   destruct (Rlt_le_dec (Rabs (di_b ev p q * dt)) thr_dE) as [H|H].
   - rewrite ltabs_true by exact H. rewrite cite_true. rewrite (Hb H). apply di_tmp1_exact; auto.
-  - rewrite ltabs_false by exact H. rewrite cite_false. apply di_nz_exact; auto.
+  - rewrite ltabs_false by exact H. rewrite cite_false. apply di_nz_exact.
     exact (unmasked_nz thr_dE _ dt H1 H).
 Qed.
 
-(* the entry depends on the eigenvalues only through the two differences (used for the d = 2 shortcut) *)
-Lemma deriv_integral_entry_diag th3 w ev dt p p' m n :
-  deriv_integral_entry RO th3 w ev dt p p m n = deriv_integral_entry RO th3 w ev dt p' p' m n.
+(* the entry depends on the eigenvalues only through the two differences *)
+Lemma deriv_integral_entry_diag th2 w ev dt p p' m n :
+  deriv_integral_entry RO th2 w ev dt p p m n = deriv_integral_entry RO th2 w ev dt p' p' m n.
 Proof.
-  destruct th3 as [[a b] c]. unfold deriv_integral_entry. simpl.
+  unfold deriv_integral_entry. simpl.
   replace (vg RO ev p - vg RO ev p) with 0 by ring. replace (vg RO ev p' - vg RO ev p') with 0 by ring. reflexivity.
 Qed.
-Lemma deriv_integral_entry_diag2 th3 w ev dt p q m m' :
-  deriv_integral_entry RO th3 w ev dt p q m m = deriv_integral_entry RO th3 w ev dt p q m' m'.
+Lemma deriv_integral_entry_diag2 th2 w ev dt p q m m' :
+  deriv_integral_entry RO th2 w ev dt p q m m = deriv_integral_entry RO th2 w ev dt p q m' m'.
 Proof.
-  destruct th3 as [[a b] c]. unfold deriv_integral_entry. simpl.
+  unfold deriv_integral_entry. simpl.
   replace (vg RO ev m - vg RO ev m) with 0 by ring. replace (vg RO ev m' - vg RO ev m') with 0 by ring. reflexivity.
 Qed.
 
-(* no division outside a mask: every denominator the function divides by (mask false) is non-zero *)
-Theorem di_div_safe thr_dE thr_x thr_y w ev dt p q m n : 0 < thr_dE -> 0 < thr_x -> 0 < thr_y ->
-  forall bx, In bx (di_denoms RO (thr_dE, thr_x, thr_y) w ev dt p q m n) -> fst bx = false -> snd bx <> 0.
+(* no division outside a guard: a denominator under a threshold mask is used only when the mask is false, a
+   denominator under an exact-zero test only when the test x != 0 is true; it is non-zero in both cases *)
+Theorem di_div_safe thr_dE thr_s w ev dt p q m n : 0 < thr_dE -> 0 < thr_s ->
+  (forall bx, In bx (di_denoms_masked RO (thr_dE, thr_s) w ev dt p q m n) -> fst bx = false -> snd bx <> 0) /\
+  (forall bx, In bx (di_denoms_nz RO w ev dt p q m n) -> fst bx = true -> snd bx <> 0).
 Proof.
-  intros H1 H2 H3 bx Hin Hf. simpl in Hin.
-  assert (P : forall x thr, 0 < thr -> ltabs RO (omul RO x dt) thr = false -> x <> 0).
-  { intros x thr Ht Hm ->. unfold ltabs in Hm; simpl in Hm. apply Rgtb_false in Hm.
-    rewrite Rmult_0_l, Rabs_R0 in Hm. lra. }
-  destruct Hin as [<-|[<-|[<-|[]]]]; simpl in *.
-  - exact (P _ _ H2 Hf).
-  - exact (P _ _ H3 Hf).
-  - exact (P _ _ H1 Hf).
+  intros H1 H2. split; intros bx Hin Hf; simpl in Hin.
+  - assert (P : forall x thr, 0 < thr -> ltabs RO (omul RO x dt) thr = false -> x <> 0).
+    { intros x thr Ht Hm ->. unfold ltabs in Hm; simpl in Hm. apply Rgtb_false in Hm.
+      rewrite Rmult_0_l, Rabs_R0 in Hm. lra. }
+    destruct Hin as [<-|[<-|[]]]; simpl in *.
+    + exact (P _ _ H1 Hf).
+    + exact (P _ _ H2 Hf).
+  - assert (P : forall x, nonzero RO (omul RO x dt) = true -> x <> 0).
+    { intros x Hm ->. change (omul RO 0 dt) with (0 * dt) in Hm. rewrite Rmult_0_l, nonzero_false in Hm. discriminate. }
+    destruct Hin as [<-|[<-|[]]]; simpl in *; exact (P _ Hf).
 Qed.
 
 (* a positive dyadic m * 2^-k with m < 2^k lies in (0, 1): the extracted thresholds *)
@@ -395,10 +406,10 @@ Proof.
 Qed.
 
 (* on the double diagonal at w = 0 the entry is the limit value dt^2/2 *)
-Lemma di_diag_w0 thr_dE thr_x thr_y ev dt p m : 0 < thr_dE -> 0 < thr_x ->
-  deriv_integral_entry RO (thr_dE, thr_x, thr_y) 0 ev dt p p m m = (dt * dt / (1 + 1), 0).
+Lemma di_diag_w0 thr_dE thr_s ev dt p m : 0 < thr_dE -> 0 < thr_s ->
+  deriv_integral_entry RO (thr_dE, thr_s) 0 ev dt p p m m = (dt * dt * (1 / 2), 0).
 Proof.
-  intros H1 H2. unfold deriv_integral_entry.
+  intros H1 H2. unfold deriv_integral_entry. cbn [fst snd].
   change (osub RO (vg RO ev p) (vg RO ev p)) with (vg RO ev p - vg RO ev p).
   change (oadd RO 0 (osub RO (vg RO ev m) (vg RO ev m))) with (0 + (vg RO ev m - vg RO ev m)).
   replace (vg RO ev p - vg RO ev p) with 0 by ring.
@@ -406,23 +417,24 @@ Proof.
   change (omul RO 0 dt) with (0 * dt). rewrite Rmult_0_l.
   rewrite ltabs_true by (rewrite Rabs_R0; auto). rewrite cite_true.
   unfold di_tmp1. change (omul RO 0 dt) with (0 * dt). rewrite Rmult_0_l.
-  rewrite ltabs_true by (rewrite Rabs_R0; auto). rewrite cite_true. reflexivity.
+  rewrite ltabs_true by (rewrite Rabs_R0; auto). rewrite cite_true. rewrite horner_0.
+  apply c_eq; simpl; ring.
 Qed.
 
 (* Pre-fix refutation for non-traceless operators: a non-degenerate segment (eigenvalues 0 and 1), w = 0,
    dt = 1, control and noise operator both the projector diag(1, 0) (in the eigenbasis):
    the general branch gives M[0,0] = 0, the shortcut gave dt^2/2.  Any positive thresholds.      *)
 Definition proj0 : Mat (T:=R) := [[1c; 0c]; [0c; 0c]].
-Theorem d2_shortcut_prefix_refuted thr_dE thr_x thr_y : 0 < thr_dE -> 0 < thr_x -> 0 < thr_y ->
+Theorem d2_shortcut_prefix_refuted thr_dE thr_s : 0 < thr_dE -> 0 < thr_s ->
   exists (w dt : R) (ev : list R) (Cb NT : Mat) (r c : nat), (r < 2)%nat /\ (c < 2)%nat /\
     vg RO ev 0 <> vg RO ev 1 /\
-    M_entry_prefix 2 (deriv_integral_entry RO (thr_dE, thr_x, thr_y) w ev dt) Cb NT r c
-    <> Mgen_entry RO 2 (deriv_integral_entry RO (thr_dE, thr_x, thr_y) w ev dt) Cb NT r c.
+    M_entry_prefix 2 (deriv_integral_entry RO (thr_dE, thr_s) w ev dt) Cb NT r c
+    <> Mgen_entry RO 2 (deriv_integral_entry RO (thr_dE, thr_s) w ev dt) Cb NT r c.
 Proof.
-  intros H1 H2 H3. exists 0, 1, [0; 1], proj0, proj0, O, O.
+  intros H1 H2. exists 0, 1, [0; 1], proj0, proj0, O, O.
   split; [lia|]. split; [lia|]. split. { unfold vg, vget; simpl. lra. }
   unfold M_entry_prefix, Mshort_entry_prefix, Mgen_entry, M1_entry, M2_entry. simpl.
-  set (DI := deriv_integral_entry RO (thr_dE, thr_x, thr_y) 0 [0; 1] 1).
+  set (DI := deriv_integral_entry RO (thr_dE, thr_s) 0 [0; 1] 1).
   assert (E : DI O O O O = (1 / 2, 0)).
   { unfold DI. rewrite di_diag_w0 by auto. apply c_eq; simpl; field. }
   unfold mget; simpl. intros Hc.
@@ -797,20 +809,20 @@ Proof.
   rewrite cexp_add. ring.
 Qed.
 
-Variables (thr_dE thr_x thr_y dt : R).
-Hypothesis thr_pos : 0 < thr_dE /\ 0 < thr_x /\ 0 < thr_y.
-(* a masked quantity is masked only when it is exactly zero (no Taylor-branch approximation involved) *)
+Variables (thr_dE thr_s dt : R).
+Hypothesis thr_pos : 0 < thr_dE /\ 0 < thr_s.
+(* an eigenvalue difference is treated as degenerate only when it is exactly zero, and the Taylor polynomial is
+   only used at x = 0 (no approximation involved) *)
 Hypothesis mask_exact : forall p q m n, (p < d)%nat -> (q < d)%nat -> (m < d)%nat -> (n < d)%nat ->
   (Rabs (di_b ev p q * dt) < thr_dE -> di_b ev p q = 0) /\
-  (Rabs (di_x w ev m n * dt) < thr_x -> di_x w ev m n = 0) /\
-  (Rabs ((di_x w ev m n + di_b ev p q) * dt) < thr_y -> di_x w ev m n + di_b ev p q = 0).
+  (Rabs (di_b ev p q * dt) < thr_dE -> Rabs (di_x w ev m n * dt) < thr_s -> di_x w ev m n = 0).
 
 Lemma DI_cRInt p q m n : (p < d)%nat -> (q < d)%nat -> (m < d)%nat -> (n < d)%nat ->
-  cRInt (dint (w + Om m n) (Om p q)) 0 dt (deriv_integral_entry RO (thr_dE, thr_x, thr_y) w ev dt p q m n).
+  cRInt (dint (w + Om m n) (Om p q)) 0 dt (deriv_integral_entry RO (thr_dE, thr_s) w ev dt p q m n).
 Proof.
-  intros Hp Hq Hm Hn. destruct thr_pos as [T1 [T2 T3]].
-  destruct (mask_exact p q m n Hp Hq Hm Hn) as [M1 [M2 M3]].
-  exact (deriv_integral_cases thr_dE thr_x thr_y w ev dt p q m n T1 T2 T3 M1 M2 M3).
+  intros Hp Hq Hm Hn. destruct thr_pos as [T1 T2].
+  destruct (mask_exact p q m n Hp Hq Hm Hn) as [M1 M2].
+  exact (deriv_integral_cases thr_dE thr_s w ev dt p q m n T1 T2 M1 M2).
 Qed.
 
 (* M (general branch) is the integral over the segment of e^{i w t} [Phi_h(t), N_a(t)]: with Duhamel's
@@ -818,7 +830,7 @@ Qed.
    control-matrix integrand, integrated.                                                           *)
 Theorem Mgen_commutator_integral r c : (r < d)%nat -> (c < d)%nat ->
   cRInt (comm_integrand r c) 0 dt
-        (Mgen_entry RO d (deriv_integral_entry RO (thr_dE, thr_x, thr_y) w ev dt) Cb NT r c).
+        (Mgen_entry RO d (deriv_integral_entry RO (thr_dE, thr_s) w ev dt) Cb NT r c).
 Proof.
   intros Hr Hc. unfold Mgen_entry, M1_entry, M2_entry.
   apply (cRInt_ext (fun t => csub'
@@ -843,7 +855,7 @@ Theorem step_deriv_commutator_integral (phase : Cx) (BTj : Mat (T:=R)) :
   cRInt (fun t => cmul' phase (csumn' d (fun n => csumn' d (fun k =>
                     cmul' (cmul' ic (mget RO BTj n k)) (comm_integrand k n t))))) 0 dt
         (step_deriv_entry RO d phase BTj
-           (mbuild d d (Mgen_entry RO d (deriv_integral_entry RO (thr_dE, thr_x, thr_y) w ev dt) Cb NT))).
+           (mbuild d d (Mgen_entry RO d (deriv_integral_entry RO (thr_dE, thr_s) w ev dt) Cb NT))).
 Proof.
   unfold step_deriv_entry. apply cRInt_cmul_l.
   apply (cRInt_csumn d (fun n t => csumn' d (fun k => cmul' (cmul' ic (mget RO BTj n k)) (comm_integrand k n t)))).
